@@ -160,6 +160,13 @@ func (r *Router) NewIQResultRoute(ctx context.Context, id string) chan stanza.IQ
 	return route.result
 }
 
+// removeIQResultRoute unregisters a pending IQ result route (the request could not be sent)
+func (r *Router) removeIQResultRoute(id string) {
+	r.IQResultRouteLock.Lock()
+	delete(r.IQResultRoutes, id)
+	r.IQResultRouteLock.Unlock()
+}
+
 func (r *Router) Match(p stanza.Packet, match *RouteMatch) bool {
 	for _, route := range r.routes {
 		if route.Match(p, match) {
